@@ -388,6 +388,52 @@ class Inj:
       return True
     return False
 
+REPEAT = {'upd-eq': (False, '='), 'upd-shl': (False, '<<='), 'ff-at': (True, '@='), 'ff-eq': (True, '=')}
+
+def inj_op_repeat(j, what, form):
+  """one block assigns the SAME signal object several times and exactly one of the assignments, at any position, uses the
+  wrong operator: straight-line, default + if/else override, both branches of an if, or two loops over one list of signals"""
+  rng, d = j.rng, j.d
+  ffwant, wrong = REPEAT[what]
+  right = '<<=' if ffwant else '@='
+  if form == 'loops':
+    for p in sorted(d.insts, key=lambda _: rng.random()):
+      els = [x for x in d.insts[p].sigs if x.lst and x.kind in ('out', 'wire')]
+      if not els or any(j.b.drv.get(x.root, 0) for x in els): continue
+      dims = els[0].lst[1]; iv = 'ijk'[:len(dims)]
+      def loop(op):
+        L = [('  ' * n) + f'for {iv[n]} in range({dims[n]}):' for n in range(len(dims))]
+        return L + [('  ' * len(dims)) + f's.{els[0].lst[0]}' + ''.join(f'[{v}]' for v in iv) + f' {op} {rng.randrange(0, 8)}']
+      ops = [wrong, right] if rng.random() < 0.3 else [right, wrong]
+      lines = loop(ops[0]) + loop(ops[1])
+      writes = [(whole(x), ops[0]) for x in els] + [(whole(x), ops[1]) for x in els]
+      name = f'xb{j.nb}'; j.nb += 1
+      d.stmts[p].append(('blk', name, ffwant, lines, writes, []))
+      for x in els: j.b.drv[x.root] = c08.full_mask(x)
+      return True
+    return False
+  blks = [(h, st) for h, st in d.blocks() if st[2] == ffwant and st[4]]; rng.shuffle(blks)
+  for h, st in blks:
+    k = rng.randrange(len(st[4])); e, old = st[4][k]
+    if old != right: continue
+    cand_lines = [i for i, l in enumerate(st[3]) if f' {old} ' in l]
+    if len(cand_lines) != len(st[4]): continue
+    idx = cand_lines[k]
+    t = e.local(h); rhs = lambda: const_text(rng, e.T)
+    n = rng.choice([2, 2, 3]); pos = rng.randrange(n)
+    ops = [wrong if i == pos else right for i in range(n)]
+    if form == 'straight':
+      new = [f'{t} {op} {rhs()}' for op in ops]
+    else:
+      ins = [x for x in d.insts[h].sigs if x.kind == 'in' and x.T[0] == 'b']
+      if not ins: continue
+      c = f's.{rng.choice(ins).name}[0]'
+      new = ([f'{t} {ops[0]} {rhs()}'] if n == 3 else []) + [f'if {c}:', f'  {t} {ops[-2]} {rhs()}', 'else:', f'  {t} {ops[-1]} {rhs()}']
+    st[3][idx:idx + 1] = new
+    st[4][k:k + 1] = [(e, op) for op in ops]
+    return True
+  return False
+
 def add_ff_blocks(rng, d, b):
   for p in sorted(d.insts):
     i = d.insts[p]
@@ -454,6 +500,18 @@ INJECTIONS = [
   ('op:ff-eq', 2, lambda j: j.inj_op('ff-eq')),
   ('op:ff-aug', 1, lambda j: j.inj_op('ff-aug')),
   ('op:ff-nontop', 2, lambda j: j.inj_op('ff-nontop')),
+  ('op-repeat:upd-eq:straight', 2, lambda j: inj_op_repeat(j, 'upd-eq', 'straight')),
+  ('op-repeat:upd-eq:ifelse', 2, lambda j: inj_op_repeat(j, 'upd-eq', 'ifelse')),
+  ('op-repeat:upd-eq:loops', 1, lambda j: inj_op_repeat(j, 'upd-eq', 'loops')),
+  ('op-repeat:upd-shl:straight', 2, lambda j: inj_op_repeat(j, 'upd-shl', 'straight')),
+  ('op-repeat:upd-shl:ifelse', 2, lambda j: inj_op_repeat(j, 'upd-shl', 'ifelse')),
+  ('op-repeat:upd-shl:loops', 1, lambda j: inj_op_repeat(j, 'upd-shl', 'loops')),
+  ('op-repeat:ff-at:straight', 2, lambda j: inj_op_repeat(j, 'ff-at', 'straight')),
+  ('op-repeat:ff-at:ifelse', 2, lambda j: inj_op_repeat(j, 'ff-at', 'ifelse')),
+  ('op-repeat:ff-at:loops', 1, lambda j: inj_op_repeat(j, 'ff-at', 'loops')),
+  ('op-repeat:ff-eq:straight', 2, lambda j: inj_op_repeat(j, 'ff-eq', 'straight')),
+  ('op-repeat:ff-eq:ifelse', 2, lambda j: inj_op_repeat(j, 'ff-eq', 'ifelse')),
+  ('op-repeat:ff-eq:loops', 1, lambda j: inj_op_repeat(j, 'ff-eq', 'loops')),
   ('same-net-overlap', 2, None),          # built by the net generator
   ('same-blk:parent+field,sibling-in-net', 2, None),
 ]
